@@ -846,6 +846,8 @@ func (r *Run) Do(a Action) *Step {
 		} else {
 			s.Skipped = true
 		}
+	case "sleep":
+		time.Sleep(time.Duration(a.Offset) * time.Millisecond) // real time passes (used sparingly: aged messages)
 	case "nop":
 	default:
 		panic("hist: unknown action kind " + a.Kind)
@@ -1369,6 +1371,8 @@ func (a Action) String() string {
 		return s
 	case "tick":
 		return fmt.Sprintf("tick %s %+d", a.Tick, a.Offset)
+	case "sleep":
+		return fmt.Sprintf("sleep %d ms", a.Offset)
 	case "pidcursor":
 		return fmt.Sprintf("pidcursor %s %d", a.ClientIDStr(), a.Offset)
 	case "burst":
